@@ -96,6 +96,11 @@ CHECKS = {
         technique="byte-level TLA+ definition of what a Redis server materialises from a serialised value (RdbValue.tla: all length and string forms, LZF, ziplist, intset, zipmap, quicklist, text and binary scores) and of the tool's encoder; TLC checks Materialise(Encode(v)) = v over boundary values and the file-encoder protocol composed with the C01 loader contract (EncFile.tla); the TLC-enumerated values and generated values in every compact encoding are run through the real EncodeDump / DecodeDump / Encoder / Loader / ObjEntry and every observation is judged by TLC (RdbValueTrace.tla), large payloads and finite-score numerics by a lifted Go reference",
         text="TLC proves the model round trip for all boundary values (integer-form limits, signs, zeros, spaces, binary, NaN / infinities / negative zero) and all object sequences up to 5-6 objects for the file protocol; the real codecs are bound by replaying TLC's values and by trace validation of thousands of (type, bytes, value) observations covering every compact encoding a server can emit.",
         note="Finite score numerics and integers beyond 32 bits are decided by the lifted Go reference, not by TLC; sizes are bounded (elements up to 16384, strings up to 70000 bytes)."),
+    "C17": dict(
+        level="model_checking", design="DESIGN.md 4/C17",
+        technique="TLA+ model of the decode pipeline (Decode.tla: loader, bounded channels, N workers, writer) model-checked by TLC for all interleavings (completeness, no duplication, adjacency, termination under weak fairness); the real CmdDecode.Main() is run on generated RDB files with parallel 1..8 and its parsed output - each line attributed to (record, element) and content-compared through its base64 fields - is validated by TLC against the same contract (DecodeTrace.tla)",
+        text="TLC explores every interleaving of the abstract pipeline for up to 5 records and 4 workers; the real command is bound by trace validation of its output for generated files covering every classic type and encoding, binary and numeric key names, expiries, several databases, scripts, infinite scores, hashes above the split limit, parallel 1..8.",
+        note="Real goroutine schedules are sampled (free-running), not enumerated: decode.go has no gate hooks; script lines are compared as text."),
 }
 
 NOT_YET = "check not built yet in this session (work in progress; see DESIGN.md section 7 for the order)"
